@@ -275,6 +275,8 @@ class Verifier:
                 info["unsupported"].append(f"{sname}: {e}")
                 results.append(ObRes(f"{sname}/supported", "unknown", "engine", 0, path=list(ctx.decisions),
                                      detail=f"unsupported construct: {e}"))
+            finally:
+                ctx.kill_generators()
             info["assumed"] |= ctx.assumed
         info["paths"] += npaths
         vac = [r for r in results if r.kind == "vacuity" and r.name == f"{sname}/requires-satisfiable"]
@@ -289,6 +291,7 @@ class Verifier:
         if getattr(contract, "assume_nonzero_divisors", False):
             ctx.ghost["assume_nonzero_divisors"] = True
         call = builder(b)
+        info.setdefault("symbols", {})[sname] = dict(b.names)   # input symbols of the scenario (used by the CPython cross-check)
         args = [b.conv(a) for a in call.get("args", [])]
         kwargs = {k: b.conv(v) for k, v in call.get("kwargs", {}).items()}
         extra = {k: b.conv(v) for k, v in call.get("env", {}).items()}
@@ -349,7 +352,7 @@ class Verifier:
         exit_kind, result, exc = "normal", None, None
         try:
             if isinstance(fv, FuncVal):
-                result = ctx.call_func(fv, args, kwargs)
+                result = ctx.call_func(fv, args, kwargs, eager_generator=True)
             else:
                 result = ctx.call(fv, args, kwargs)
         except PyRaise as e:
